@@ -141,6 +141,6 @@ pub fn std_exe() -> &'static str {
     static P: std::sync::OnceLock<String> = std::sync::OnceLock::new();
     P.get_or_init(|| {
         std::env::var("COSIM_STD_EXE")
-            .unwrap_or_else(|_| "/verif/target/std/release/cosim".to_string())
+            .unwrap_or_else(|_| "/verif/target/std/plain/cosim".to_string())
     })
 }
